@@ -666,6 +666,19 @@ where
                     inner,
                 ))
             },
+            // The alternation is preceded by a termination; disallow sub-globs that begin with a
+            // branch that may root the sub-glob.
+            //
+            // For example, `{foo,</bar:1,>}`.
+            Only((inner, None)) | StartEnd((inner, None), _)
+                if left.is_none() && inner.has_root().is_maybe_true() =>
+            {
+                Err(CorrelatedError::new(
+                    RuleErrorKind::RootedSubGlob,
+                    left,
+                    inner,
+                ))
+            },
             // The alternation is preceded by a termination; disallow rooted sub-globs.
             //
             // For example, `{/**/foo,bar}`.
@@ -700,6 +713,19 @@ where
             // For example, `</foo:0,>`.
             Only((inner, Some(Separator(_)))) | StartEnd((inner, Some(Separator(_))), _)
                 if left.is_none() && lower.is_unbounded() =>
+            {
+                Err(CorrelatedError::new(
+                    RuleErrorKind::RootedSubGlob,
+                    left,
+                    inner,
+                ))
+            },
+            // The repetition is preceded by a termination; disallow sub-globs with a zero lower
+            // bound that begin with a branch that may root the sub-glob.
+            //
+            // For example, `<</foo:1,>:0,>`.
+            Only((inner, None)) | StartEnd((inner, None), _)
+                if left.is_none() && lower.is_unbounded() && inner.has_root().is_maybe_true() =>
             {
                 Err(CorrelatedError::new(
                     RuleErrorKind::RootedSubGlob,
